@@ -4,6 +4,7 @@ use crate::rng::Rng;
 
 pub mod c01;
 pub mod c02;
+pub mod c19;
 pub mod c05;
 pub mod c06;
 pub mod c07;
@@ -11,7 +12,7 @@ pub mod c10;
 
 /// run the real code for one request; None = unknown function
 pub fn run(r: &Req) -> Option<String> {
-    c01::run(r).or_else(|| c02::run(r)).or_else(|| c06::run(r)).or_else(|| c07::run(r)).or_else(|| c10::run(r))
+    c01::run(r).or_else(|| c02::run(r)).or_else(|| c19::run(r)).or_else(|| c06::run(r)).or_else(|| c07::run(r)).or_else(|| c10::run(r))
 }
 
 /// (request lines, whether the enumerated part was exhaustive over its stated bounds)
@@ -19,6 +20,7 @@ pub fn generate(prop: &str, tier: &str, rng: &mut Rng) -> (Vec<String>, bool) {
     match prop {
         "C01" => c01::generate(tier, rng),
         "C02" => c02::generate(tier, rng),
+        "C19" => c19::generate(tier, rng),
         "C05" => c05::generate(tier, rng),
         "C06" => c06::generate(tier, rng),
         "C07" => c07::generate(tier, rng),
@@ -31,6 +33,7 @@ pub fn rule(prop: &str, tier: &str) -> String {
     match prop {
         "C01" => c01::rule(tier),
         "C02" => c02::rule(tier),
+        "C19" => c19::rule(tier),
         "C05" => c05::rule(tier),
         "C06" => c06::rule(tier),
         "C07" => c07::rule(tier),
@@ -71,6 +74,7 @@ pub fn valid_case(prop: &str, r: &Req) -> bool {
     match prop {
         "C01" => c01::valid_case(r),
         "C02" => c02::valid_case(r),
+        "C19" => c19::valid_case(r),
         "C05" => c05::valid_case(r),
         "C06" => c06::valid_case(r),
         "C07" => c07::valid_case(r),
